@@ -254,7 +254,7 @@ func actStr(g *ref.Grammar, kind, arg int) string {
 	return "reduce " + g.RuleString(arg)
 }
 
-func init() { register(c04in{}) }
+func init()              { register(c04in{}) }
 func (c04in) ID() string { return "C04" }
 func (c04in) Rule() string {
 	return "table leg: case = one grammar (operator tables with 1-6 levels, random associativity, prefix operators via %prec; random grammars with precedence lines; curated families) built in-process; yaccgo's precedence assignment (level order, associativity, rule precedence symbol) is compared with the specification, and every cell of the dense table except don't-care cells is compared with the reference table (yacc resolution over the by-definition LALR(1) automaton, states matched by item set); behaviour leg (pipeline, counters gen:*): generated parsers of operator grammars must perform exactly the reductions of the reference LR simulation and group every expression like an independent precedence-climbing evaluator; non-trivial = grammar with at least one conflict cell; distinct by grammar text"
